@@ -314,8 +314,8 @@ func stackScenarios(tier string, r *vlib.Rng) []*scen.Scenario {
 				if tier != "thorough" && (kind == "reset0") != (up.pad == 3<<20 || up.pad == 70000 || up.pad == 8<<20+1 || up.pad == 16<<20) {
 					continue
 				}
-				if tier != "thorough" && up.pad > 33<<20 {
-					continue
+				if tier != "thorough" && up.pad > 17<<20 {
+					continue // 32 MiB + 1 and above: thorough tier (c01 sends 32 MiB + 1 in its quick tier, with a minute's deadline)
 				}
 				sc := &scen.Scenario{Engine: engine, Balancer: "priority", Profile: "auto", Method: "POST", Path: "/olla/proxy/v1/chat/completions",
 					ReqBody: fmt.Sprintf(`{"messages":[{"role":"user","content":"u%d"}]}`, r.Intn(1000)), ReqPad: up.pad, ReqChunked: up.chunked, Followup: true}
